@@ -307,17 +307,20 @@ def make_collection(s, docs, how, allow_incomplete, tmpdir=None, names=None):
     import mosromgr.moscollection as mcmod
     from .. import events as EV
     EV.STATE['quiet'] = EV.STATE.get('quiet', 0) + 1
+    # allow_incomplete='omitted': the keyword is not passed at all (the documented default is False)
+    kwargs = {} if allow_incomplete == 'omitted' else {'allow_incomplete': allow_incomplete}
     try:
         if how == 'strings':
-            return mcmod.MosCollection.from_strings(list(docs), allow_incomplete=allow_incomplete), None
+            return mcmod.MosCollection.from_strings(list(docs), **kwargs), None
         if how == 'files':
             paths = []
             for k, d in enumerate(docs):
                 p = os.path.join(tmpdir, (names[k] if names else 'f%03d.mos.xml' % k))
+                os.makedirs(os.path.dirname(p), exist_ok=True)      # names may put files in directories of their own
                 with open(p, 'w', encoding='utf-8') as f:
                     f.write(d)
                 paths.append(p)
-            return mcmod.MosCollection.from_files(paths, allow_incomplete=allow_incomplete), None
+            return mcmod.MosCollection.from_files(paths, **kwargs), None
         if how == 's3':
             f3 = ensure_fake_s3()
             _S3['n'] += 1
@@ -330,8 +333,7 @@ def make_collection(s, docs, how, allow_incomplete, tmpdir=None, names=None):
             f3.put(bucket, 'pre/fix/ignored.txt', 'not a mos file')
             f3.put(bucket, 'other/zzz.mos.xml', '<mos/>')
             f3.CONFIG['page_size'] = 1 + (_S3['n'] % 5)
-            return mcmod.MosCollection.from_s3(bucket_name=bucket, prefix='pre/fix/',
-                                               allow_incomplete=allow_incomplete), None
+            return mcmod.MosCollection.from_s3(bucket_name=bucket, prefix='pre/fix/', **kwargs), None
         raise ValueError(how)
     except Exception as e:
         return None, e
